@@ -17,8 +17,22 @@ from sa import report as R     # noqa: E402
 ALL = ['C%02d' % i for i in range(1, 21)]
 
 
+_CHECKED_MODULES = set()
+
+
 def load_rules(prop):
-  return importlib.import_module('sa.rules.' + prop.lower())
+  mod = importlib.import_module('sa.rules.' + prop.lower())
+  if mod.__name__ not in _CHECKED_MODULES:
+    # a rule function defined twice silently replaces the first one (it happened: a new
+    # `rule_i` shadowed an existing one and its obligations vanished without a trace)
+    import ast as _ast
+    import collections as _c
+    tree = _ast.parse(open(mod.__file__).read())
+    dup = [n for n, k in _c.Counter(x.name for x in tree.body if isinstance(x, _ast.FunctionDef)).items() if k > 1]
+    if dup:
+      raise I.AnalysisError(f'{mod.__name__}: function(s) defined twice: {dup}')
+    _CHECKED_MODULES.add(mod.__name__)
+  return mod
 
 
 def run_rules(mod, idx, prop):
